@@ -298,6 +298,7 @@ package check
 //@   ensures result != nil
 
 //@ func (*Engine).BatchCheck
+//@   ensures[C08,C01] entries-do-not-share-a-visited-set: vset(now(ctx)) == vset(ctx)
 //@   opt no-direct-elem-writes results
 //@   modifies engineCalls, engineAllowed, engineFailed, faulted, db
 //@   ensures[C17] read-only: db == old(db)
@@ -313,7 +314,6 @@ package check
 //@   props C08 C13 C03
 //@   requires wfe(e) && ctx != nil && mapper != nil && 0 <= i && i < len(results)
 //@   requires captured-read-only-mapper: mapper != nil && mapper.ReadOnly && mapper.D != nil
-//@   requires[C08,C01] creator-entries-do-not-share-a-visited-set: vset(ctx) == vset(old(ctx))
 //@   callsite (*Engine).CheckRelationTuple requires[C08,C01] entry-checked-in-the-request-context: $arg1 == ctx
 //@   requires[C08] creator-slot-alignment: 0 <= i && i < len(tuples) && tuple == tuples[i] && len(results) == len(tuples) && maxDepth == old(maxDepth)
 //@   ensures[C03] slot-inv: results[i].Err != nil ==> results[i].Membership != checkgroup.IsMember
